@@ -435,6 +435,30 @@ def spec_programs():
     return out
 
 
+def empty_write_programs():
+    """(tag, src, args): writing things of length zero, one storage class and one print routine per program - a guard that is
+    only there for the empty case shows nowhere else"""
+    show = 'empty show(const byte[] a) { write(\'<\'); write(a); write(\'|\'); writeln(a); write(\'>\'); }\n'
+    P = {'const_global': ('const byte[] gc = [];\n', 'write(gc); writeln(gc); show(gc);'),
+         'mut_global': ('byte[] gm = [];\n', 'write(gm); writeln(gm); show(gm);'),
+         'vla_global': ('byte gz[0];\n', 'write(gz); writeln(gz); show(gz);'),
+         'string_global': ('string gs = "";\n', 'write(gs); writeln(gs); write(gs is byte[]); show(gs);'),
+         'const_local': ('', 'const byte[] lc = []; write(lc); writeln(lc); show(lc);'),
+         'mut_local': ('', 'byte[] lm = []; write(lm); writeln(lm); show(lm);'),
+         'vla_local': ('', 'byte dyn[0]; write(dyn); writeln(dyn); show(dyn);'),
+         'vla_dynamic': ('', 'int k = 0; byte dyn[k]; write(dyn); writeln(dyn); show(dyn);'),
+         'literal': ('', 'write(""); writeln(""); show(""); write("" is byte[]); writeln("" is byte[]);'),
+         'string_local': ('', 'string s = ""; write(s); writeln(s); write(s is byte[]); show(s);'),
+         'string_elem': ('', 'string[] ss = ["", "a"]; write(ss[0]); writeln(ss[0]); write(ss[0] is byte[]); show(ss[0]);'),
+         'returned': ('string none() { return ""; }\n', 'write(none()); writeln(none()); write(none() is byte[]); show(none());')}
+    out = []
+    for tag, (g, body) in P.items():
+        out.append(('empty_' + tag, g + show + 'empty @is_you() { write("["); %s write("]"); }\n' % body, []))
+    out.append(('empty_arg_string', show + 'empty @is_you(string s) { write("["); write(s); writeln(s); write(s is byte[]); show(s); write("]"); }\n', ['']))
+    out.append(('empty_arg_bytes', show + 'empty @is_you(const byte[] d) { write("["); write(d); writeln(d); show(d); write("]"); }\n', []))
+    return out
+
+
 def frame_pressure_programs(rng, n):
     """programs whose frame holds live stack arrays *below* later locals, expression temporaries and call frames, and which
     print every array element and local at the end: any slot overlap (a frame peak computed too small) shows in the output at the
